@@ -367,6 +367,8 @@ func checkC16(c *Ctx) {
 
 	c.ruleNoSharedStateInAuth("C16-R7")
 	c.ruleRecordFromOwnLine("C16-R8", authPkg)
+	c.ruleEveryMatchingRecord("C16-R9", authPkg)
+	c.ruleMountPointNeverEmpty("C16-R10", authPkg)
 
 	// R1: setup gating
 	c.checkSetupGating()
@@ -910,4 +912,183 @@ func (c *Ctx) ruleRecordFromOwnLine(id string, authPkg string) {
 		}
 	}
 	ru.Anchor(n > 0, "an append of a record inside the loader's loop")
+}
+
+// ruleEveryMatchingRecord implements C16-R9: the file handler tries every record that carries the presented username.
+func (c *Ctx) ruleEveryMatchingRecord(id string, authPkg string) {
+	ru := c.R.Rule(id, "the credential-file lookup examines every record whose searched field equals the presented username, not only the one the binary search lands on: the record whose password is compared is indexed by a loop variable that starts at the search position and advances (two entries may share a username; the CONNECT matching the second one must be accepted too)", "E3 provenance of the index of the record whose password is compared (loop-carried φ seeded by sort.Search)", 1)
+	auth := c.authHandlerOf(authPkg, "FileHandler")
+	search := c.fo(ru, "sort", "Search")
+	if !ru.Anchor(auth != nil, "Authenticate of the handler built by auth.FileHandler") || search == nil {
+		return
+	}
+	n, bad := 0, ""
+	for _, g := range c.funcsDeepStop(auth, 2, func(g *ssa.Function) bool { return g.Pkg != auth.Pkg }) {
+		for _, b := range g.Blocks {
+			for _, in := range b.Instrs {
+				bo, ok := in.(*ssa.BinOp)
+				if !ok || (bo.Op != token.EQL && bo.Op != token.NEQ) {
+					continue
+				}
+				// a comparison involving the presented password …
+				if !c.mentionsAppField(bo.X, g, "Password") && !c.mentionsAppField(bo.Y, g, "Password") {
+					continue
+				}
+				// … and a field of a record of the table
+				for _, side := range []ssa.Value{bo.X, bo.Y} {
+					ld, ok := conversionsOnly(side).(*ssa.UnOp)
+					if !ok || ld.Op != token.MUL {
+						continue
+					}
+					fa, ok := ld.X.(*ssa.FieldAddr)
+					if !ok {
+						continue
+					}
+					ia, ok := fa.X.(*ssa.IndexAddr)
+					if !ok {
+						continue
+					}
+					n++
+					c.R.Fn(c.fname(g))
+					idx := deepStrip(ia.Index)
+					phi, isPhi := idx.(*ssa.Phi)
+					fromSearch := func(v ssa.Value) bool {
+						cv, ok := deepStrip(v).(*ssa.Call)
+						return ok && core.CallOf(cv).Is(search)
+					}
+					switch {
+					case isPhi:
+						seeded, advances := false, false
+						for _, e := range phi.Edges {
+							if fromSearch(e) {
+								seeded = true
+							}
+							if inc, ok := e.(*ssa.BinOp); ok && inc.Op == token.ADD && (inc.X == ssa.Value(phi) || inc.Y == ssa.Value(phi)) {
+								advances = true
+							}
+						}
+						if !seeded || !advances {
+							bad = "the index of the record whose password is compared is neither seeded by the binary search nor advanced in a loop (" + c.whereI(bo) + ")"
+						}
+					case fromSearch(idx):
+						bad = "only the record at the binary search's position is examined (" + c.whereI(bo) + "): of several entries with the same username only the first one in file order can ever log in"
+					default:
+						// a linear scan over the whole table examines every record
+						if core.InnermostLoop(core.Loops(g), bo.Block()) == nil {
+							bad = "the record whose password is compared is chosen outside any loop (" + c.whereI(bo) + ")"
+						}
+					}
+				}
+			}
+		}
+	}
+	ru.Check(bad == "" && n > 0, "records examined by "+c.fname(auth), c.whereF(auth), fmt.Sprintf("%d password comparison(s) against table records, each inside the scan over the matching records", n), bad+map[bool]string{true: "", false: "no comparison of the presented password with a table record found"}[n > 0 || bad != ""])
+}
+
+// ruleMountPointNeverEmpty implements C16-R10.
+func (c *Ctx) ruleMountPointNeverEmpty(id string, authPkg string) {
+	ru := c.R.Rule(id, "no record of the credential table gets an empty mount point: the value stored is a non-empty constant (the default) or a field of the line tested non-empty on the way ('user:hash:' names no mount point — its sessions belong to the default one, not to the root of every trie)", "E3 provenance + E2 control dependence of the record's MountPoint", 1)
+	fh := c.P.Func(authPkg, "FileHandler")
+	if !ru.Anchor(fh != nil, "auth.FileHandler") {
+		return
+	}
+	type condPol struct {
+		cond ssa.Value
+		pol  bool
+	}
+	var nonEmpty func(v ssa.Value, at *ssa.BasicBlock, edgeTo *ssa.BasicBlock, depth int) bool
+	nonEmpty = func(v ssa.Value, at *ssa.BasicBlock, edgeTo *ssa.BasicBlock, depth int) bool {
+		if depth > 6 {
+			return false
+		}
+		v = conversionsOnly(v)
+		if k, ok := v.(*ssa.Const); ok {
+			return k.Value != nil && k.Value.Kind() == constant.String && constant.StringVal(k.Value) != ""
+		}
+		if phi, ok := v.(*ssa.Phi); ok {
+			for i, e := range phi.Edges {
+				if i >= len(phi.Block().Preds) || !nonEmpty(e, phi.Block().Preds[i], phi.Block(), depth+1) {
+					return false
+				}
+			}
+			return true
+		}
+		vt := core.Term(v)
+		var conds []condPol
+		for _, cc := range controllingConds(at, nil) {
+			conds = append(conds, condPol{cc.cond, cc.pol})
+		}
+		// the value travels along the edge at -> edgeTo: the branch taken at the end of `at` counts too
+		if edgeTo != nil {
+			if iff, ok := at.Instrs[len(at.Instrs)-1].(*ssa.If); ok && len(at.Succs) == 2 && at.Succs[0] != at.Succs[1] {
+				conds = append(conds, condPol{iff.Cond, at.Succs[0] == edgeTo})
+			}
+		}
+		for _, cc := range conds {
+			bo, ok := cc.cond.(*ssa.BinOp)
+			if !ok {
+				continue
+			}
+			for _, pair := range [][2]ssa.Value{{bo.X, bo.Y}, {bo.Y, bo.X}} {
+				// v != ""   /   len(v) != 0, > 0
+				if k, ok := pair[1].(*ssa.Const); ok && k.Value != nil && k.Value.Kind() == constant.String && constant.StringVal(k.Value) == "" && core.Term(pair[0]) == vt {
+					if (bo.Op == token.NEQ) == cc.pol {
+						return true
+					}
+				}
+				if lc, ok := pair[0].(*ssa.Call); ok && core.CallOf(lc).Builtin() == "len" && core.Term(lc.Call.Args[0]) == vt {
+					if kv, isK := constInt(pair[1]); isK && kv == 0 {
+						op := bo.Op
+						if pair[0] == bo.Y {
+							op = map[token.Token]token.Token{token.LSS: token.GTR, token.GTR: token.LSS, token.LEQ: token.GEQ, token.GEQ: token.LEQ, token.EQL: token.EQL, token.NEQ: token.NEQ}[op]
+						}
+						if holds(op, 0, 0) != cc.pol {
+							return true
+						}
+					}
+				}
+			}
+		}
+		return false
+	}
+	n, bad := 0, ""
+	for _, g := range c.funcsDeep(fh, 3) {
+		for _, b := range g.Blocks {
+			for _, in := range b.Instrs {
+				st, ok := in.(*ssa.Store)
+				if !ok {
+					continue
+				}
+				fa, ok := st.Addr.(*ssa.FieldAddr)
+				if !ok || fieldNameOf(fa.X.Type(), fa.Field) != "MountPoint" {
+					continue
+				}
+				nn, isNamedT := derefT(fa.X.Type()).(*types.Named)
+				if !isNamedT || nn.Obj().Pkg() == nil || nn.Obj().Pkg().Path() != c.P.Rel(authPkg) || nn.Obj().Name() == "Principal" {
+					continue
+				}
+				n++
+				c.R.Fn(c.fname(g))
+				v := st.Val
+				if p, isP := core.Strip(v).(*ssa.Parameter); isP {
+					// a constructor of records: judged at its call sites
+					okAll := true
+					for _, site := range c.P.StaticCallers(g) {
+						args := site.Common().Args
+						if i := paramIdx(p); i < len(args) && !nonEmpty(args[i], site.Block(), nil, 0) {
+							okAll = false
+						}
+					}
+					if !okAll {
+						bad = "a record is built with a mount point that may be empty (" + c.whereI(st) + ")"
+					}
+					continue
+				}
+				if !nonEmpty(v, b, nil, 0) {
+					bad = "the mount point stored at " + c.whereI(st) + " (" + short(core.Term(v), 50) + ") is not known to be non-empty: a line 'user:hash:' puts the user's sessions in the mount point \"\""
+				}
+			}
+		}
+	}
+	ru.Check(bad == "" && n > 0, "mount point of the records built by "+c.fname(fh), c.whereF(fh), fmt.Sprintf("%d store(s), each a non-empty constant or a value tested non-empty", n), bad+map[bool]string{true: "", false: "no record mount point is stored"}[n > 0 || bad != ""])
 }
